@@ -56,8 +56,10 @@ func mkMarkerNode(name string, seed int) ast.Vertex {
 }
 
 // slot configurations: cfg < 0 selects by Choose among
-//   0: everything present   1: everything absent
-//   2+2i: only slot i absent   3+2i: only slot i present
+//
+//	0: everything present   1: everything absent
+//	2+2i: only slot i absent   3+2i: only slot i present
+//
 // and, when the kind has at most fullMax variable slots, the full product instead.
 const fullMax = 6
 
